@@ -4,7 +4,7 @@
 //!   axes child_index <parent> <child> <tree>
 //! The oracle (`oracle.rs` part below, independent of the Lean model) evaluates the C07 laws on
 //! the implementation's answers against an owned copy of the tree (`GTree`).
-use crate::common::{guarded, Rng, Sink};
+use crate::common::{enc, guarded, Rng, Sink};
 use crate::tree::*;
 use std::collections::{BTreeMap, HashMap, HashSet};
 use xot::{Axis, LevelOrder, Node, NodeEdge, Xot};
@@ -20,6 +20,14 @@ pub const EDGE_ENTRIES: &[&str] = &[
 ];
 pub const EDGE_STEP_ENTRIES: &[&str] = &["edge_next_start", "edge_next_end", "edge_prev_start", "edge_prev_end"];
 pub const OTHER_ENTRIES: &[&str] = &["level_order", "root", "top_element", "document_element"];
+/// The per-node read accessors of valueaccess.rs / access.rs (Model/ValueAccess.lean).  The keyed
+/// ones are asked for every name id / prefix id of the standard vocabulary (`*<count>`).
+pub const VALUE_ENTRIES: &[&str] = &[
+    "has_document_parent", "is_document_element", "get_element_name", "comment_str", "processing_instruction",
+    "namespace_node", "attribute_node", "namespace_declarations", "get_attribute*20", "get_namespace*7",
+];
+pub const N_NAMES: usize = 20;
+pub const N_PREFIXES: usize = 7;
 pub const AXES: &[(&str, Axis)] = &[
     ("child", Axis::Child),
     ("descendant", Axis::Descendant),
@@ -37,7 +45,7 @@ pub const AXES: &[(&str, Axis)] = &[
 
 pub fn all_entries() -> Vec<String> {
     let mut v: Vec<String> = vec![];
-    for group in [OPT_ENTRIES, LIST_ENTRIES, EDGE_ENTRIES, EDGE_STEP_ENTRIES, OTHER_ENTRIES] {
+    for group in [OPT_ENTRIES, LIST_ENTRIES, EDGE_ENTRIES, EDGE_STEP_ENTRIES, OTHER_ENTRIES, VALUE_ENTRIES] {
         v.extend(group.iter().map(|s| s.to_string()));
     }
     v.extend(AXES.iter().map(|(n, _)| format!("axis_{}", n)));
@@ -47,6 +55,7 @@ pub fn all_entries() -> Vec<String> {
 /// A generated tree built in a real Xot, with the node <-> path correspondence.
 pub struct Case<'a> {
     pub xot: &'a Xot,
+    pub vocab: &'a Vocab,
     pub t: &'a GTree,
     pub nodes: Vec<Node>,
     pub paths: Vec<Vec<usize>>,
@@ -54,12 +63,14 @@ pub struct Case<'a> {
 }
 
 impl<'a> Case<'a> {
-    pub fn new(xot: &'a Xot, t: &'a GTree, root: Node) -> Self {
+    pub fn new(xot: &'a Xot, vocab: &'a Vocab, t: &'a GTree, root: Node) -> Self {
+        assert_eq!(vocab.names.len(), N_NAMES, "standard vocabulary: names");
+        assert_eq!(vocab.prefixes.len(), N_PREFIXES, "standard vocabulary: prefixes");
         let nodes = nodes_in_order(xot, root);
         let paths = t.paths();
         assert_eq!(nodes.len(), paths.len(), "built tree has the generated node count");
         let index = nodes.iter().enumerate().map(|(i, n)| (*n, i)).collect();
-        Case { xot, t, nodes, paths, index }
+        Case { xot, vocab, t, nodes, paths, index }
     }
     pub fn p(&self, n: Node) -> String {
         match self.index.get(&n) {
@@ -180,6 +191,46 @@ impl<'a> Case<'a> {
                 Err(xot::Error::NoElementAtTopLevel) => "err:NoElementAtTopLevel".to_string(),
                 Err(e) => format!("err:other {:?}", e),
             },
+            "has_document_parent" => format!("b {}", x.has_document_parent(n) as u8),
+            "is_document_element" => format!("b {}", x.is_document_element(n) as u8),
+            "get_element_name" => format!("ok {}", name_num(x.get_element_name(n))),
+            "comment_str" => match x.comment_str(n) {
+                Some(s) => format!("some {}", enc(s)),
+                None => "none".to_string(),
+            },
+            "processing_instruction" => match x.processing_instruction(n) {
+                Some(pi) => format!("some {} {}", name_num(pi.target()), pi.data().map(enc).unwrap_or_else(|| "-".to_string())),
+                None => "none".to_string(),
+            },
+            "namespace_node" => match x.namespace_node(n) {
+                Some(ns) => format!("some {} {}", prefix_num(ns.prefix()), ns_num(ns.namespace())),
+                None => "none".to_string(),
+            },
+            "attribute_node" => match x.attribute_node(n) {
+                Some(a) => format!("some {} {}", name_num(a.name()), enc(a.value())),
+                None => "none".to_string(),
+            },
+            "namespace_declarations" => {
+                let mut s = String::from("l");
+                for (p, ns) in x.namespace_declarations(n) {
+                    s.push_str(&format!(" {}:{}", prefix_num(p), ns_num(ns)));
+                }
+                s
+            }
+            "get_attribute*20" => {
+                let mut s = String::from("l");
+                for k in 0..N_NAMES {
+                    s.push_str(&format!(" {}={}", k, x.get_attribute(n, self.vocab.name(k)).map(enc).unwrap_or_else(|| "-".to_string())));
+                }
+                s
+            }
+            "get_namespace*7" => {
+                let mut s = String::from("l");
+                for k in 0..N_PREFIXES {
+                    s.push_str(&format!(" {}={}", k, x.get_namespace(n, self.vocab.prefix(k)).map(|ns| ns_num(ns).to_string()).unwrap_or_else(|| "-".to_string())));
+                }
+                s
+            }
             _ => {
                 if let Some(name) = entry.strip_prefix("axis_") {
                     let ax = AXES.iter().find(|(k, _)| *k == name).expect("axis name").1;
@@ -521,6 +572,120 @@ pub fn oracle(case: &Case, ans: &dyn Fn(&str, usize) -> String, fails: &mut Fail
                 fails.fail(sink, "C07:top_element-differs", format!("top_element = {}, expected {}", got_top, expect), case.t, p, "top_element");
             }
         }
+        // --- the per-node read accessors: against the owned tree …
+        {
+            let node = case.t.at(p).unwrap();
+            let par_idx = if p.is_empty() { None } else { pos.get(&path_str(&p[..p.len() - 1])).copied() };
+            let par_is_doc = !p.is_empty() && matches!(case.t.at(&p[..p.len() - 1]).unwrap().v, GValue::Document);
+            let me_elem = matches!(node.v, GValue::Element(_));
+            check("has_document_parent", format!("b {}", par_is_doc as u8), "C07:has_document_parent-differs", fails, sink);
+            check("is_document_element", format!("b {}", (par_is_doc && me_elem) as u8), "C07:is_document_element-differs", fails, sink);
+            check("get_element_name", match node.v { GValue::Element(nm) => format!("ok {}", nm), _ => "panic".to_string() }, "C07:get_element_name-differs", fails, sink);
+            check("comment_str", match &node.v { GValue::Comment(c) => format!("some {}", enc(c)), _ => "none".to_string() }, "C07:comment_str-differs", fails, sink);
+            check(
+                "processing_instruction",
+                match &node.v { GValue::PI(tg, d) => format!("some {} {}", tg, d.as_deref().map(enc).unwrap_or_else(|| "-".to_string())), _ => "none".to_string() },
+                "C07:processing_instruction-differs", fails, sink,
+            );
+            check("namespace_node", match &node.v { GValue::Namespace(pf, ns) => format!("some {} {}", pf, ns), _ => "none".to_string() }, "C07:namespace_node-differs", fails, sink);
+            check("attribute_node", match &node.v { GValue::Attribute(nm, v) => format!("some {} {}", nm, enc(v)), _ => "none".to_string() }, "C07:attribute_node-differs", fails, sink);
+            // the views the adapters select: leading namespace nodes, then the attribute run
+            let kid_paths = sp.kid_paths(p);
+            let ns_run: Vec<&GTree> = kid_paths.iter().take_while(|q| sp.cat(q) == 2).map(|q| case.t.at(q).unwrap()).collect();
+            let at_run: Vec<&GTree> = kid_paths.iter().skip_while(|q| sp.cat(q) == 2).take_while(|q| sp.cat(q) == 1).map(|q| case.t.at(q).unwrap()).collect();
+            let mut decls = String::from("l");
+            for k in &ns_run {
+                if let GValue::Namespace(pf, ns) = &k.v {
+                    decls.push_str(&format!(" {}:{}", pf, ns));
+                }
+            }
+            check("namespace_declarations", decls, "C07:namespace_declarations-differs", fails, sink);
+            let mut ga = String::from("l");
+            for key in 0..N_NAMES {
+                let hit = at_run.iter().find_map(|k| match &k.v { GValue::Attribute(nm, v) if *nm == key => Some(enc(v)), _ => None });
+                ga.push_str(&format!(" {}={}", key, hit.unwrap_or_else(|| "-".to_string())));
+            }
+            check("get_attribute*20", ga, "C07:get_attribute-differs", fails, sink);
+            let mut gn = String::from("l");
+            for key in 0..N_PREFIXES {
+                let hit = ns_run.iter().find_map(|k| match &k.v { GValue::Namespace(pf, ns) if *pf == key => Some(ns.to_string()), _ => None });
+                gn.push_str(&format!(" {}={}", key, hit.unwrap_or_else(|| "-".to_string())));
+            }
+            check("get_namespace*7", gn, "C07:get_namespace-differs", fails, sink);
+            // … and against what the other accessors of the implementation say
+            if let Some(pi) = par_idx {
+                // document_element(parent) = Ok(this node) => is_document_element(this node); with a
+                // single element child of a document also the converse
+                let de = ans("document_element", pi);
+                let is_de = ans("is_document_element", i) == "b 1";
+                let elem_sibs = sp.normal_kids(&p[..p.len() - 1]).iter().filter(|q| is_elem(q)).count();
+                if de == format!("ok {}", path_str(p)) && !is_de {
+                    fails.fail(sink, "C07:document_element-is-not-is_document_element", format!("document_element(parent) = {}, is_document_element(it) = false", de), case.t, p, "is_document_element");
+                }
+                if is_de && elem_sibs == 1 && de != format!("ok {}", path_str(p)) {
+                    fails.fail(sink, "C07:is_document_element-is-not-document_element", format!("is_document_element, the only element child, but document_element(parent) = {}", de), case.t, p, "is_document_element");
+                }
+                if is_de {
+                    sink.stat(if elem_sibs == 1 { "oracle.is_document_element.the-document_element" } else { "oracle.is_document_element.one-of-several-top-elements" });
+                }
+            }
+            let x = case.xot;
+            let nd = case.nodes[i];
+            let direct = guarded(|| {
+                let mut bad: Vec<String> = vec![];
+                for key in 0..N_NAMES {
+                    let nm = case.vocab.name(key);
+                    if x.get_attribute(nd, nm) != x.attributes(nd).get(nm).map(String::as_str) {
+                        bad.push(format!("get_attribute(name {}) differs from attributes().get()", key));
+                    }
+                }
+                for key in 0..N_PREFIXES {
+                    let pf = case.vocab.prefix(key);
+                    if x.get_namespace(nd, pf) != x.namespaces(nd).get(pf).copied() {
+                        bad.push(format!("get_namespace(prefix {}) differs from namespaces().get()", key));
+                    }
+                }
+                let d = x.namespace_declarations(nd);
+                let it: Vec<_> = x.namespaces(nd).iter().map(|(k, v)| (k, *v)).collect();
+                if d != it {
+                    bad.push("namespace_declarations differs from namespaces().iter()".to_string());
+                }
+                let pm = x.prefixes(nd);
+                if d.len() != pm.len() || d.iter().any(|(k, v)| pm.get(k) != Some(v)) {
+                    bad.push("namespace_declarations differs from prefixes()".to_string());
+                }
+                if x.comment_str(nd) != x.comment(nd).map(|c| c.get()) {
+                    bad.push("comment_str differs from comment().get()".to_string());
+                }
+                let v = x.value(nd);
+                if x.comment_str(nd).is_some() != matches!(v, xot::Value::Comment(_))
+                    || x.processing_instruction(nd).is_some() != x.is_processing_instruction(nd)
+                    || x.namespace_node(nd).is_some() != x.is_namespace_node(nd)
+                    || x.attribute_node(nd).is_some() != x.is_attribute_node(nd)
+                {
+                    bad.push("a typed value accessor disagrees with the is_* test".to_string());
+                }
+                if x.is_element(nd) && Some(x.get_element_name(nd)) != x.element(nd).map(|e| e.name()) {
+                    bad.push("get_element_name differs from element().name()".to_string());
+                }
+                if x.has_document_parent(nd) != x.parent(nd).map(|q| x.is_document(q)).unwrap_or(false) {
+                    bad.push("has_document_parent differs from is_document(parent)".to_string());
+                }
+                if x.is_document_element(nd) != (x.has_document_parent(nd) && x.is_element(nd)) {
+                    bad.push("is_document_element differs from has_document_parent && is_element".to_string());
+                }
+                bad
+            });
+            match direct {
+                None => fails.fail(sink, "C07:read-accessor-panics", "a read accessor panicked on a live node".to_string(), case.t, p, "value accessors"),
+                Some(bad) => {
+                    sink.stat("oracle.value-accessors.cross-checked");
+                    for b in bad {
+                        fails.fail(sink, "C07:accessor-shortcut-differs-from-view", b, case.t, p, "value accessors");
+                    }
+                }
+            }
+        }
         // --- plain variants never expose namespace / attribute nodes (other than the start node)
         for entry in [
             "children", "reverse_children", "descendants", "following", "preceding", "reverse_preorder", "traverse",
@@ -580,7 +745,7 @@ pub fn run_tree(t: &GTree, mode: &Mode, rng: &mut Rng, entries: &[String], fails
             return;
         }
     };
-    let case = Case::new(&xot, t, root);
+    let case = Case::new(&xot, &vocab, t, root);
     let wire = t.wire();
     let n = case.paths.len();
     sink.stat("trees");
@@ -610,6 +775,22 @@ pub fn run_tree(t: &GTree, mode: &Mode, rng: &mut Rng, entries: &[String], fails
             GValue::Document => "node.document",
             _ => "node.leaf",
         });
+        for e in VALUE_ENTRIES {
+            let a = &table[&(e.to_string(), i)];
+            let class = if a == "panic" {
+                "panic".to_string()
+            } else if *e == "get_attribute*20" || *e == "get_namespace*7" {
+                let hits = a.split(' ').skip(1).filter(|w| !w.ends_with("=-")).count();
+                sink.stat_n(&format!("value.{}.calls", e), if *e == "get_attribute*20" { N_NAMES as u64 } else { N_PREFIXES as u64 });
+                sink.stat_n(&format!("value.{}.some", e), hits as u64);
+                continue;
+            } else if *e == "namespace_declarations" {
+                (if a == "l" { "empty" } else { "nonempty" }).to_string()
+            } else {
+                a.split(' ').take(if a.starts_with("b ") { 2 } else { 1 }).collect::<Vec<_>>().join("-")
+            };
+            sink.stat(&format!("value.{}.{}", e, class));
+        }
         let ps = path_str(&case.paths[i]);
         if mode.per_entry {
             for e in entries {
@@ -696,9 +877,10 @@ fn fan(rng: &mut Rng, width: usize) -> GTree {
         kids.push(GTree::leaf(GValue::Attribute([2usize, 3, 4, 5][a], "v".into())));
     }
     for _ in 0..width {
-        kids.push(match rng.below(5) {
+        kids.push(match rng.below(6) {
             0 => GTree::leaf(GValue::Text("t".into())),
             1 => GTree::leaf(GValue::Comment("c".into())),
+            5 => GTree::leaf(GValue::PI(18, if rng.chance(1, 2) { Some("d x".into()) } else { None })),
             2 => GTree::new(GValue::Element(3), vec![GTree::leaf(GValue::Attribute(2, "".into())), GTree::leaf(GValue::Text("u".into()))]),
             _ => GTree::leaf(GValue::Element(4)),
         });
